@@ -1,5 +1,7 @@
 //! Runtime monitors for synth-utils-rs. See /verif/DESIGN.md.
 pub mod adsr;
+pub mod c17;
+pub mod c20;
 pub mod glide;
 pub mod json;
 pub mod lfo;
@@ -7,6 +9,7 @@ pub mod midi;
 pub mod quant;
 pub mod replay;
 pub mod report;
+pub mod ribbon;
 pub mod rng;
 
 use report::{Ctx, Report, Violation};
@@ -19,6 +22,9 @@ pub fn run_property(ctx: &Ctx, prop: &str) -> Result<Report, String> {
         "C07" | "C08" | "C09" | "C19" => Ok(quant::run(ctx, prop)),
         "C10" | "C11" | "C12" => Ok(lfo::run(ctx, prop)),
         "C13" | "C14" => Ok(glide::run(ctx, prop)),
+        "C17" => Ok(c17::run(ctx)),
+        "C20" => Ok(c20::run(ctx)),
+        "C15" | "C16" => Ok(ribbon::run(ctx, prop)),
         _ => Err(format!("unknown property '{}'", prop)),
     }
 }
@@ -27,11 +33,18 @@ pub fn run_property(ctx: &Ctx, prop: &str) -> Result<Report, String> {
 pub fn replay_property(prop: &str, text: &str, rep: &mut Report) -> Result<Option<Violation>, String> {
     let t = replay::Text::parse(text)?;
     let module = t.get("module")?.to_string();
+    if prop == "C17" {
+        return c17::replay(&t, rep);
+    }
+    if prop == "C20" {
+        return c20::replay(&t, rep);
+    }
     match module.as_str() {
         "lfo" => lfo::replay(&t, prop, rep),
         "adsr" => adsr::replay(&t, prop, rep),
         "midi" => midi::replay(&t, prop, rep),
         "glide" => glide::replay(&t, prop, rep),
+        "ribbon" | "ribbon-probe" => ribbon::replay(&t, prop, rep),
         "quantizer" => quant::replay(&t, prop, rep),
         m => Err(format!("unknown replay module '{}'", m)),
     }
